@@ -458,7 +458,12 @@ func (c *AuditClient) Close() error {
 // same order as the operations have been performed. If it receives an error,
 // it is returned and no further ACKs are processed.
 func (c *AuditClient) WaitForPendingACKs() error {
-	for _, reqID := range c.pendingAcks {
+	for len(c.pendingAcks) > 0 {
+		// The ACK is consumed by this call whatever the outcome, so it is no
+		// longer pending.
+		reqID := c.pendingAcks[0]
+		c.pendingAcks = c.pendingAcks[1:]
+
 		ack, err := c.getReply(reqID)
 		if err != nil {
 			return err
